@@ -64,8 +64,16 @@ func valStr(kind string, v int) string {
 		if v%4 == 0 {
 			return fmt.Sprintf("-Dopt=v%d,k=%d", v, v) // a value with '=' in it
 		}
+		if v%9 == 0 {
+			return "" // a variable that is set to the empty string
+		}
 		return fmt.Sprintf("v%d", v)
-	case "ann", "unified":
+	case "ann":
+		if v%7 == 0 {
+			return "" // an annotation that is present with an empty value
+		}
+		return fmt.Sprintf("v%d", v)
+	case "unified":
 		return fmt.Sprintf("v%d", v)
 	case "mount":
 		m := mkMount("", v)
